@@ -111,6 +111,9 @@ def run(chk, facts, tier):
             else:
                 kinds.append('other')
         ok = okb and sorted(kinds) == ['clamp', 'inc', 'reset']
+        rec = fn.body.calls('disarmable_connection_state_last_latency')
+        okr = len(rec) == 1 and is_name(rec[0].args()[0], lat) and all(precedes(fn, st, rec[0]) or not fn.paths_avoiding([fn.block_of(rec[0])], fn.block_of(st), set()) for op, val, st in sts)
+        chk.instance('latency-bounded', fn, 'applied latency recorded after its last adjustment', okr, '' if okr else 'the latency remembered for pulling an event back differs from the latency applied (recorded before the instant clamp)', key='recorded')
         chk.instance('latency-bounded', fn, 'stores to %s: %s' % (lat, kinds), ok, '' if ok else 'the number of skipped events can exceed the connection\'s peripheral latency or skip a pending instant', key='bounded')
     for fn in facts.functions:
         if fn.name == 'reschedule_on_pending_data_impl' and fn.body.calls('peripheral_latency_move_connection_event'):
